@@ -326,3 +326,14 @@ Definition kind_not_reserved (cfg : es_config) (l : leaf) : bool :=
   end.
 Definition kinds_not_reserved (cfg : es_config) (t : item) : bool :=
   forallb (kind_not_reserved cfg) (expected_leaves cfg t).
+
+(* a condition on the configuration alone that implies kinds_not_reserved for every tree: no
+   match_type / type option is "bool" or "nested" *)
+Definition not_reserved_value (o : option json) : bool :=
+  match o with
+  | Some (JStr m) => negb (str_eqb m k_bool) && negb (str_eqb m k_nested)
+  | _ => true
+  end.
+Definition options_not_reserved (cfg : es_config) : bool :=
+  forallb (fun fo => not_reserved_value (obj_get k_match_type (snd fo)) &&
+                     not_reserved_value (obj_get k_type (snd fo))) (c_field_options cfg).
